@@ -33,14 +33,25 @@ Proof.
     assert (k' = k) by lia. subst k'. rewrite E in Hin. discriminate Hin.
 Qed.
 
+Lemma keys_has_z : forall (m : tagmap) z, (0 <= z)%Z ->
+  go_map_has (keys m) z = match m !! Z.to_N z with Some _ => true | None => false end.
+Proof. intros m z Hz. rewrite <- (Z2N.id z Hz) at 1. apply keys_has. Qed.
+
 Lemma wrap_next : forall h, h < 65536 ->
   go_wrap 16 (Z.of_N h + 1) = Z.of_N ((h + 1) mod 65536).
 Proof. intros h Hh. unfold go_wrap. change (Z.pow 2 16) with 65536%Z. lia. Qed.
 
+Lemma wrap_next' : forall h, h < 65536 ->
+  go_wrap 16 (1 + Z.of_N h) = Z.of_N ((h + 1) mod 65536).
+Proof. intros h Hh. rewrite Z.add_comm. apply wrap_next. exact Hh. Qed.
+
 Lemma next_tag_lt : forall h, next_tag h < 65536.
 Proof. intros h. unfold next_tag, NOTAG. destruct (N.eqb_spec ((h + 1) mod 65536) 65535); lia. Qed.
 
-(* one pass of the loop body = next_tag, then the probe *)
+(* one pass of the loop body = next_tag, then the probe.  Written against the meaning of the generated
+   body, not its layout: the increment is rewritten to the model's form, the reserved-tag test is decided
+   in both orientations and polarities, the probe is read through [keys_has_z] whatever the variable
+   holding the candidate is called or however the two tests are nested. *)
 Lemma alloc_body : forall (m : tagmap) i h, h < 65536 ->
   gen_allocateTag_loop1 (keys m) i (Z.of_N h) =
     match m !! next_tag h with
@@ -48,13 +59,22 @@ Lemma alloc_body : forall (m : tagmap) i h, h < 65536 ->
     | Some _ => Nxt (Z.of_N (next_tag h))
     end.
 Proof.
-  intros m i h Hh. unfold gen_allocateTag_loop1. cbv zeta. rewrite (wrap_next h Hh).
-  unfold next_tag, NOTAG.
-  destruct (N.eqb_spec ((h + 1) mod 65536) 65535) as [He|He].
-  - rewrite He. change (Z.eqb (Z.of_N 65535) 65535) with true. cbv iota.
-    change 0%Z with (Z.of_N 0). rewrite keys_has. destruct (m !! 0); reflexivity.
-  - destruct (Z.eqb_spec (Z.of_N ((h + 1) mod 65536)) 65535) as [Hz|Hz]; [lia|].
-    rewrite keys_has. destruct (m !! ((h + 1) mod 65536)); reflexivity.
+  intros m i h Hh. unfold gen_allocateTag_loop1. cbv zeta.
+  rewrite ?(wrap_next h Hh), ?(wrap_next' h Hh).
+  unfold next_tag, NOTAG. set (x := (h + 1) mod 65536) in *.
+  assert (Hx : x < 65536) by (subst x; lia).
+  destruct (N.eqb_spec x 65535) as [He|He].
+  - assert (Hz : Z.eqb (Z.of_N x) 65535 = true) by lia.
+    assert (Hz' : Z.eqb 65535 (Z.of_N x) = true) by lia.
+    rewrite ?Hz, ?Hz'. cbn [negb]. cbv iota.
+    rewrite ?keys_has_z by lia. change (Z.to_N 0) with 0. rewrite ?N2Z.id.
+    change (Z.of_N 0) with 0%Z.
+    destruct (m !! 0); cbn [negb]; reflexivity.
+  - assert (Hz : Z.eqb (Z.of_N x) 65535 = false) by lia.
+    assert (Hz' : Z.eqb 65535 (Z.of_N x) = false) by lia.
+    rewrite ?Hz, ?Hz'. cbn [negb]. cbv iota.
+    rewrite ?keys_has_z by lia. rewrite ?N2Z.id.
+    destruct (m !! x); cbn [negb]; reflexivity.
 Qed.
 
 Lemma alloc_loop_eq : forall (m : tagmap) fuel i h, h < 65536 ->
